@@ -96,47 +96,49 @@ fn log_rule_update(map: &RuleMap) {
 }
 
 pub fn append_rule(rule: Arc<Rule>) -> bool {
-    if RULE_MAP
-        .lock()
-        .unwrap()
+    // both maps stay locked (in the same order as in `load_rules`) for the whole update
+    let mut rule_map = RULE_MAP.lock().unwrap();
+    if rule_map
         .get(&rule.resource)
-        .unwrap_or(&HashSet::new())
-        .contains(&rule)
+        .map_or(false, |rules| rules.contains(&rule))
     {
         return false;
     }
     match rule.is_valid() {
         Ok(_) => {
-            RULE_MAP
-                .lock()
-                .unwrap()
+            rule_map
                 .entry(rule.resource.clone())
                 .or_default()
                 .insert(Arc::clone(&rule));
         }
-        Err(err) => logging::warn!(
-            "[Hot Spot append_rule] Ignoring invalid flow rule {:?}, reason: {:?}",
-            rule,
-            err
-        ),
+        Err(err) => {
+            logging::warn!(
+                "[Hot Spot append_rule] Ignoring invalid flow rule {:?}, reason: {:?}",
+                rule,
+                err
+            );
+            return true;
+        }
     }
+    let valid_rules_of_res: HashSet<_> = rule_map[&rule.resource]
+        .iter()
+        .filter(|r| r.is_valid().is_ok())
+        .cloned()
+        .collect();
+    let mut controller_map = CONTROLLER_MAP.write().unwrap();
     let mut placeholder = Vec::new();
+    // the controllers of unchanged rules are reused; the result replaces the resource's whole list
     let new_tcs_of_res = build_resource_traffic_shaping_controller(
         &rule.resource,
-        RULE_MAP.lock().unwrap().get(&rule.resource).unwrap(),
-        CONTROLLER_MAP
-            .write()
-            .unwrap()
+        &valid_rules_of_res,
+        controller_map
             .get_mut(&rule.resource)
             .unwrap_or(&mut placeholder),
     );
-    if !new_tcs_of_res.is_empty() {
-        CONTROLLER_MAP
-            .write()
-            .unwrap()
-            .entry(rule.resource.clone())
-            .or_default()
-            .push(Arc::clone(&new_tcs_of_res[0]));
+    if new_tcs_of_res.is_empty() {
+        controller_map.remove(&rule.resource);
+    } else {
+        controller_map.insert(rule.resource.clone(), new_tcs_of_res);
     }
     true
 }
